@@ -123,6 +123,10 @@ def check_position(spec, ctx):
     cstart, cend = coll.start, coll.end
     if spec["parent"] == "chunk":
         ctx.label("on_chunk")
+    if o.get("start") is not None and g is not None:
+        w_lo = spec["chunk"][0] if spec["parent"] == "chunk" else 0
+        if o["start"] > w_lo:
+            ctx.label("explicit_start_inside_sequence")
     if len(kids) >= 3 and len({k[0] for k in kids}) >= 2:
         ctx.nt()
     if o.get("variant_collections"):
@@ -280,10 +284,15 @@ def coll_base(draw, tier):
         if mode in ("chrom", "chunk"):
             n = hi + draw(st.integers(1, 8))
             sp["genome"] = draw(S.dna(n, n))
+            kids = children_of(o)
+            lo = min(k[2] for k in kids)
             if mode == "chunk":
-                kids = children_of(o)
-                lo = min(k[2] for k in kids)
                 sp["chunk"] = [draw(st.integers(0, lo)), draw(st.integers(hi, n))]
+            if draw(st.integers(0, 2)) == 0:
+                # the collection's own bounds given explicitly: inside the sequence / chunk window, containing every member
+                w_lo, w_hi = sp.get("chunk") or (0, n)
+                o["start"] = draw(st.integers(w_lo, lo))
+                o["end"] = draw(st.integers(hi, w_hi))
     return sp, hi
 
 
@@ -346,7 +355,7 @@ PROP = Prop(
     legs=[
         Leg("position", check_position, strategy=strat_position, n_quick=350, n_thorough=3500, shards_quick=4,
             must_hit=["child_end==query_end", "child_start==query_start", "bin_boundary_crossed", "on_chunk", "coding_only&variants",
-                      "bins_prefilter_active", "member_sequence_checked", "member_sliced_by_bounds", "invalid_query_refused", "empty_result"],
+                      "bins_prefilter_active", "member_sequence_checked", "member_sliced_by_bounds", "invalid_query_refused", "empty_result", "explicit_start_inside_sequence"],
             rule="collections (0..3 genes, 0..2 feature collections, optional variant collection) on no parent / id-only parent / whole chromosome / chunk, or shifted to sit around a multiple of 2^17 (sequence-less); 8..14 query ranges each (absolute, None, or pinned to a child's start/end +-1) x completely_within x coding_only x expand"),
         Leg("small_exhaustive", check_position, enumerate=enum_small, exhaustive=True, shards_quick=16, shards_thorough=16,
             rule="one fixed 5-member collection on three parents: ALL (start,end) ranges within the bounds x all 8 flag combinations"),
